@@ -166,6 +166,27 @@ class ObjDict(object):
         f = self._fields(st)
         return isinstance(key, str) and key in f and not key.startswith("@")
 
+    def abs_call(self, interp, st, name, args, kwargs, node):
+        f = [(k, v) for k, v in self._fields(st).items() if not k.startswith("@")]
+        if name == "items" and not args:
+            return [(st, "val", tuple(f))]
+        if name == "keys" and not args:
+            return [(st, "val", tuple(k for k, _ in f))]
+        if name == "values" and not args:
+            return [(st, "val", tuple(v for _, v in f))]
+        if name == "get" and args and isinstance(args[0], str):
+            d = dict(f)
+            return [(st, "val", d.get(args[0], args[1] if len(args) > 1 else None))]
+        if name == "copy" and not args:
+            return [(st, "val", st.alloc(HObj("dict", kind="dict", items=f)))]
+        if name == "update" and len(args) == 1 and isinstance(args[0], Ref) and st.obj(args[0]).kind == "dict" and st.obj(args[0]).items is not None \
+                and all(isinstance(k, str) for k, _ in st.obj(args[0]).items):
+            for k, v in st.obj(args[0]).items:
+                st.wobj(self.ref).fields[k] = v
+            return [(st, "val", None)]
+        from .absint import Unsupported
+        raise Unsupported("obj.__dict__.%s(...) at %s" % (name, interp.loc(node)))
+
 
 class ModuleVal(object):
     __slots__ = ("mod",)        # index.Module or external dotted name (str)
